@@ -327,7 +327,9 @@ def balanced_generic(text, i):
 
 
 def norm_ty(t):
-    return re.sub(r"\s+", "", t)
+    # (the formatter breaks long generic argument lists over several lines and adds a trailing comma)
+    t = re.sub(r"\s+", "", t)
+    return re.sub(r",(?=>)|,$", "", t)
 
 
 def inst_family(ck, bindgen, tmp, quick):
@@ -400,8 +402,8 @@ def inst_family(ck, bindgen, tmp, quick):
                 i = m.end() - 1
                 j = balanced_generic(out, i)
                 ty = norm_ty(out[i + 1:j - 1])
-                ctxt = out[max(0, m.start() - 400):j + 300]
-                n = re.search(r"\)\s*-\s*(\d+)usize|\(\)\s*,\s*(\d+)usize", out[j:j + 80])
+                ctxt = out[max(0, m.start() - 500):j + 900]
+                n = re.search(r"\(\s*\)\s*-\s*(\d+)usize|\(\s*\)\s*,\s*(\d+)usize", out[j:j + 160])
                 if "template specialization" in ctxt and n:
                     asserted.setdefault(ty, {})[m.group(1)] = int(n.group(1) or n.group(2))
             # the Rust type of every member of H
